@@ -77,11 +77,37 @@ _READ_METHODS = {"get", "items", "keys", "values", "index", "count", "copy", "__
 _COPYING_CALLS = {"sorted", "list", "tuple", "set", "frozenset", "dict", "len", "iter", "enumerate", "reversed", "any", "all", "min", "max", "sum", "zip", "map", "filter", "str", "repr"}
 
 
+_PURE_HOST = {"zip", "range", "ord", "chr", "enumerate", "str", "int", "len", "sorted", "dict", "list", "tuple", "set", "frozenset", "map", "hex", "format", "repr", "min", "max"}
+
+
+def _constant_expression(e: ast.AST, bound: Optional[Set[str]] = None) -> bool:
+    """e is computed from literals, comprehension variables and pure host functions only."""
+    bound = set(bound or ())
+    for c in ast.walk(e):
+        if isinstance(c, (ast.ListComp, ast.SetComp, ast.DictComp, ast.GeneratorExp)):
+            for g in c.generators:
+                bound |= {x.id for x in ast.walk(g.target) if isinstance(x, ast.Name)}
+    for c in ast.walk(e):
+        if isinstance(c, ast.Name) and c.id not in bound and c.id not in _PURE_HOST:
+            return False
+        if isinstance(c, ast.Call) and not (isinstance(c.func, ast.Name) and c.func.id in _PURE_HOST):
+            return False
+        if isinstance(c, (ast.Attribute, ast.Lambda, ast.Await, ast.Yield)):
+            return False
+    return True
+
+
+def _constant_comprehension(value: ast.AST) -> bool:
+    return _constant_expression(value)
+
+
 def _read_only_by_use(ctx, m, name: str, value: ast.AST) -> Optional[str]:
     """None when the module-level display `name` is a constant table: its elements are immutable constants and every
     occurrence of the name, in its module and in the modules that import it, only reads it (subscript load,
     membership, iteration, .get/.items/..., len/sorted/copying constructors).  Otherwise the reason."""
-    if isinstance(value, ast.Dict):
+    if isinstance(value, (ast.DictComp, ast.ListComp, ast.SetComp)):
+        elems = []  # judged by _constant_comprehension: built from constants and pure host functions
+    elif isinstance(value, ast.Dict):
         elems = [k for k in value.keys if k is not None] + list(value.values)
         if any(k is None for k in value.keys):
             return "built from another mapping"
@@ -112,11 +138,17 @@ def _read_only_by_use(ctx, m, name: str, value: ast.AST) -> Optional[str]:
                 gp = getattr(p, "_parent", None)
                 if p.attr in _READ_METHODS and isinstance(gp, ast.Call) and gp.func is p:
                     continue
+                # filled in by a statement of the module itself: part of building the table at import
+                ggp = getattr(gp, "_parent", None)
+                if o is m and isinstance(gp, ast.Call) and gp.func is p and isinstance(ggp, ast.Expr) and getattr(ggp, "_parent", None) is o.tree and p.attr in ("update", "append", "extend", "add", "setdefault") and all(_constant_expression(a) for a in gp.args):
+                    continue
                 return f".{p.attr} at {o.rel}:{n.lineno}"
             if isinstance(p, ast.Compare) and any(c is n for c in p.comparators) and all(isinstance(op, (ast.In, ast.NotIn)) for op in p.ops):
                 continue
             if isinstance(p, (ast.For, ast.comprehension)) and p.iter is n:
                 continue
+            if isinstance(p, ast.Call) and n in p.args and isinstance(p.func, ast.Attribute) and p.func.attr in ("translate", "join", "startswith", "endswith"):
+                continue  # host string methods only read their argument
             if isinstance(p, ast.Call) and n in p.args and isinstance(p.func, ast.Name) and p.func.id in _COPYING_CALLS:
                 continue
             if isinstance(p, ast.Starred):
@@ -330,6 +362,11 @@ def rule_no_shared_state(ctx, rep, rid: str) -> None:
                         else:
                             rep.ok(rid, key, {"table": name, "mutation_sites": 0})
                         continue
+                    if sname == m.name and isinstance(value, (ast.DictComp, ast.ListComp, ast.SetComp)) and _constant_comprehension(value):
+                        why_not = _read_only_by_use(ctx, m, name, value)
+                        if why_not is None:
+                            rep.ok(rid, key, {"constant_table": "computed at import from constants, filled by module-level statements only, then only read"})
+                            continue
                     if sname == m.name and isinstance(value, (ast.Dict, ast.List, ast.Set)) and (value.keys if isinstance(value, ast.Dict) else value.elts):
                         why_not = _read_only_by_use(ctx, m, name, value)
                         if why_not is None:
@@ -925,4 +962,117 @@ def _derived_from(m, names) -> Set[str]:
     for x in m.own_nodes():
         if isinstance(x, ast.Assign) and len(x.targets) == 1 and isinstance(x.targets[0], ast.Name) and any(isinstance(y, ast.Name) and y.id in names for y in ast.walk(x.value)):
             out.add(x.targets[0].id)
+    return out
+
+
+# ---- an interpreter that is used again starts from a clean slate ----------------------------------------------
+
+
+def rule_reused_interpreter_reset(ctx, rep, rid: str) -> None:
+    """When an interpreter object is kept and used for the next evaluation (instead of being built afresh), everything
+    an abandoned evaluation can leave behind has to be cleared first.  A time- or memory-limit stop unwinds the host
+    stack without running the bytecode that balances the interpreter's own stacks: operands, frames - and the handler
+    records of the try blocks that were open.  A stale handler record sends the next evaluation's first uncaught throw
+    to an address in the OLD program."""
+    rep.rule(rid, "a method of the interpreter that re-initialises it for another run (it resets several of the fields the constructor sets) resets every container the constructor creates, except those the context fills in itself (globals) and those whose every push is undone in a finally", floor=1)
+    vmcls = ctx.facts.vm_dispatcher()[0].cls
+    init = ctx.tree.find_method(vmcls, "__init__")
+    if init is None:
+        raise AnalysisError(f"{rid}: interpreter constructor not found")
+    containers: Dict[str, int] = {}
+    scalars: Set[str] = set()
+    for a in init.own_nodes():
+        tg = a.targets[0] if isinstance(a, ast.Assign) and len(a.targets) == 1 else (a.target if isinstance(a, ast.AnnAssign) else None)
+        v = getattr(a, "value", None)
+        if isinstance(tg, ast.Attribute) and norm(tg.value) == "self" and v is not None:
+            if isinstance(v, (ast.List, ast.Dict, ast.Set)) or (isinstance(v, ast.Call) and norm(v.func) in ("list", "dict", "set", "deque", "collections.deque")):
+                containers[tg.attr] = a.lineno
+            else:
+                scalars.add(tg.attr)
+    # filled in by the context: vm.<attr> = ... in the context module
+    given = {t.attr for f in ctx.tree.funcs if f.module.name == "context" and not isinstance(f.node, ast.Lambda) for a in f.own_nodes() if isinstance(a, ast.Assign) for t in a.targets if isinstance(t, ast.Attribute) and not norm(t.value).startswith("self")}
+    # balanced by construction: every append is followed by a try whose finally pops it
+    balanced: Set[str] = set()
+    for attr in containers:
+        pushes = []
+        okc = True
+        for m in ctx.tree.funcs:
+            if isinstance(m.node, ast.Lambda) or m.module is not init.module:
+                continue
+            for st in m.own_nodes():
+                if isinstance(st, ast.Expr) and isinstance(st.value, ast.Call) and isinstance(st.value.func, ast.Attribute) and st.value.func.attr in ("append", "add") and isinstance(st.value.func.value, ast.Attribute) and st.value.func.value.attr == attr:
+                    pushes.append(st)
+                    par = getattr(st, "_parent", None)
+                    nxt = None
+                    for field in ("body", "orelse", "finalbody"):
+                        blk = getattr(par, field, None)
+                        if isinstance(blk, list) and st in blk:
+                            i = blk.index(st)
+                            nxt = blk[i + 1] if i + 1 < len(blk) else None
+                    if not (isinstance(nxt, ast.Try) and any(isinstance(c, ast.Call) and isinstance(c.func, ast.Attribute) and c.func.attr in ("pop", "remove", "discard") and isinstance(c.func.value, ast.Attribute) and c.func.value.attr == attr for b in nxt.finalbody for c in ast.walk(b))):
+                        okc = False
+        if pushes and okc:
+            balanced.add(attr)
+    n = 0
+    for m in vmcls.all_methods:
+        if isinstance(m.node, ast.Lambda) or m.name == "__init__":
+            continue
+        reset: Set[str] = set()
+        for st in m.body():
+            if isinstance(st, ast.Assign):
+                for t in st.targets:
+                    if isinstance(t, ast.Attribute) and norm(t.value) == "self":
+                        reset.add(t.attr)
+            if isinstance(st, ast.Delete):
+                for t in st.targets:
+                    if isinstance(t, ast.Subscript) and isinstance(t.value, ast.Attribute) and norm(t.value.value) == "self":
+                        reset.add(t.value.attr)
+            if isinstance(st, ast.Expr) and isinstance(st.value, ast.Call) and isinstance(st.value.func, ast.Attribute) and st.value.func.attr == "clear" and isinstance(st.value.func.value, ast.Attribute) and norm(st.value.func.value.value) == "self":
+                reset.add(st.value.func.value.attr)
+        touched = reset & (set(containers) | scalars)
+        if len(touched) < 3 or not (reset & set(containers)):
+            continue
+        n += 1
+        key = f"{m.qual}:re-initialises"
+        missing = sorted(a for a in containers if a not in reset and a not in given and a not in balanced)
+        if missing:
+            rep.bad(rid, key, f"{m.qual} prepares the interpreter for another run (it resets {sorted(touched)}) but leaves {missing} as the previous run left them: a run that was stopped by the time or memory limit inside a try block leaves its handler records behind, and the next run's first uncaught throw jumps to a catch address of the OLD program (eval returns the error object, or resumes in the middle of the new program)", m.loc)
+        else:
+            rep.ok(rid, key, {"resets": sorted(reset & set(containers)), "given_by_context": sorted(given & set(containers)), "balanced_in_finally": sorted(balanced)})
+    if n == 0:
+        rep.ok(rid, "no-reuse", {"note": "no method re-initialises an interpreter: every evaluation builds its own", "containers": sorted(containers)})
+
+
+def reinitialisers(ctx) -> Set[int]:
+    """ids of interpreter methods (other than the constructor) whose top-level statements reset at least three of the
+    fields the constructor sets, a container among them: they stand for construction when an interpreter is used again."""
+    got = ctx.__dict__.get("_reinitialisers")
+    if got is not None:
+        return got
+    vmcls = ctx.facts.vm_dispatcher()[0].cls
+    init = ctx.tree.find_method(vmcls, "__init__")
+    fields: Set[str] = set()
+    containers: Set[str] = set()
+    for a in (init.own_nodes() if init is not None else []):
+        tg = a.targets[0] if isinstance(a, ast.Assign) and len(a.targets) == 1 else (a.target if isinstance(a, ast.AnnAssign) else None)
+        v = getattr(a, "value", None)
+        if isinstance(tg, ast.Attribute) and norm(tg.value) == "self" and v is not None:
+            fields.add(tg.attr)
+            if isinstance(v, (ast.List, ast.Dict, ast.Set)) or (isinstance(v, ast.Call) and norm(v.func) in ("list", "dict", "set")):
+                containers.add(tg.attr)
+    out: Set[int] = set()
+    for m in vmcls.all_methods:
+        if isinstance(m.node, ast.Lambda) or m.name == "__init__":
+            continue
+        reset: Set[str] = set()
+        for st in m.body():
+            if isinstance(st, ast.Assign):
+                reset |= {t.attr for t in st.targets if isinstance(t, ast.Attribute) and norm(t.value) == "self"}
+            if isinstance(st, ast.Delete):
+                reset |= {t.value.attr for t in st.targets if isinstance(t, ast.Subscript) and isinstance(t.value, ast.Attribute) and norm(t.value.value) == "self"}
+            if isinstance(st, ast.Expr) and isinstance(st.value, ast.Call) and isinstance(st.value.func, ast.Attribute) and st.value.func.attr == "clear" and isinstance(st.value.func.value, ast.Attribute) and norm(st.value.func.value.value) == "self":
+                reset.add(st.value.func.value.attr)
+        if len(reset & fields) >= 3 and reset & containers:
+            out.add(id(m))
+    ctx.__dict__["_reinitialisers"] = out
     return out
